@@ -434,6 +434,10 @@ def answer (line : String) : String :=
             | st, 'n' :: r, acc => let (v, st') := nthOf step 1 st; go st' r (showOptDate v :: acc)
             | st, 'm' :: r, acc => let (v, st') := nthOf step 5 st; go st' r (showOptDate v :: acc)
             | st, 'k' :: r, acc => let (v, st') := nthOf step 40 st; go st' r (showOptDate v :: acc)
+            | st, 'g' :: r, acc => let (v, st') := nthOf step 27 st; go st' r (showOptDate v :: acc)
+            | st, 'y' :: r, acc => let (v, st') := nthOf step 364 st; go st' r (showOptDate v :: acc)
+            | st, 'Y' :: r, acc => let (v, st') := nthOf step 365 st; go st' r (showOptDate v :: acc)
+            | st, 'q' :: r, acc => let (v, st') := nthOf step 1460 st; go st' r (showOptDate v :: acc)
             | st, 'S' :: r, acc =>
               let (v1, st1) := step st
               let (v2, st2) := nthOf step 6 st1
